@@ -289,27 +289,39 @@ def order_rule(prog, rep, rule="ORDER", windowless=False):
     return descs
 
 
+def _query_var(fi):
+    """name of the local that holds the peewee query of a reader (assigned from a chain rooted at a model)"""
+    for n in walk_own(fi.node):
+        if isinstance(n, ast.Assign) and len(n.targets) == 1 and isinstance(n.targets[0], ast.Name):
+            model, calls = _root_model(n.value)
+            if model in ("EventModel", "BucketModel"):
+                return n.targets[0].id
+    return None
+
+
 def _check_q_flow(prog, rep, fi, rule):
     """all rebindings of the query variable are where()-only refinements"""
+    qv = _query_var(fi)
     for n in walk_own(fi.node):
-        if isinstance(n, ast.Assign) and len(n.targets) == 1 and isinstance(n.targets[0], ast.Name) and n.targets[0].id == "q":
+        if qv and isinstance(n, ast.Assign) and len(n.targets) == 1 and isinstance(n.targets[0], ast.Name) and n.targets[0].id == qv:
             v = n.value
             model, calls = _root_model(v)
             if model in ("EventModel", "BucketModel"):
                 continue
             if isinstance(v, ast.Call) and norm(v.func) == "self._where_range":
                 continue
-            if isinstance(v, ast.Call) and isinstance(v.func, ast.Attribute) and norm(v.func.value) == "q" and v.func.attr == "where":
+            if isinstance(v, ast.Call) and isinstance(v.func, ast.Attribute) and norm(v.func.value) == qv and v.func.attr == "where":
                 continue
-            rep.violation(rule, fi.short, f"q = {norm(v)[:60]}", "the query is re-built after ordering/limiting in a way the analysis does not recognise as a pure refinement", fi.loc(n))
+            rep.violation(rule, fi.short, f"{qv} = {norm(v)[:60]}", "the query is re-built after ordering/limiting in a way the analysis does not recognise as a pure refinement", fi.loc(n))
     wr = prog.func("PeeweeStorage._where_range")
+    wq = wr.params[1] if len(wr.params) > 1 else "q"
     for n in walk_own(wr.node):
-        if isinstance(n, ast.Assign) and len(n.targets) == 1 and isinstance(n.targets[0], ast.Name) and n.targets[0].id == "q":
+        if isinstance(n, ast.Assign) and len(n.targets) == 1 and isinstance(n.targets[0], ast.Name) and n.targets[0].id == wq:
             v = n.value
-            if not (isinstance(v, ast.Call) and isinstance(v.func, ast.Attribute) and norm(v.func.value) == "q" and v.func.attr == "where"):
-                rep.violation(rule, wr.short, f"q = {norm(v)[:60]}", "_where_range does more than add where() conjuncts", wr.loc(n))
+            if not (isinstance(v, ast.Call) and isinstance(v.func, ast.Attribute) and norm(v.func.value) == wq and v.func.attr == "where"):
+                rep.violation(rule, wr.short, f"{wq} = {norm(v)[:60]}", "_where_range does more than add where() conjuncts", wr.loc(n))
     rets = [n for n in walk_own(wr.node) if isinstance(n, ast.Return)]
-    if not rets or any(norm(r.value) != "q" for r in rets if r.value is not None):
+    if not rets or any(norm(r.value) != wq for r in rets if r.value is not None):
         rep.violation(rule, wr.short, "return", "_where_range does not return the refined query", wr.loc())
 
 
@@ -677,9 +689,10 @@ def pred_peewee(prog, rep, rule="PRED"):
     found = set()
     okdt = _dt_plus_duration_ok(prog, rep, rule)
     mapping = {"EventModel.timestamp": EV_START, "EventModel.duration": EV_DUR, "starttime": W_START, "endtime": W_END}
+    wq = fi.params[1] if len(fi.params) > 1 else "q"
     try:
         for n in walk_own(fi.node):
-            if isinstance(n, ast.Call) and isinstance(n.func, ast.Attribute) and n.func.attr == "where" and norm(n.func.value) == "q":
+            if isinstance(n, ast.Call) and isinstance(n.func, ast.Attribute) and n.func.attr == "where" and norm(n.func.value) == wq:
                 st = n
                 while not isinstance(st, ast.stmt):
                     st = parent(st)
@@ -732,7 +745,9 @@ def pred_peewee(prog, rep, rule="PRED"):
         # the result of _where_range must be what is executed / counted
         if ok:
             asg = parent(cs[0])
-            rep.check(isinstance(asg, ast.Assign) and norm(asg.targets[0]) == "q", rule, f2.short, "q = self._where_range(...)", "refined query kept", "the refined query is discarded", f2.loc(cs[0]))
+            kept = isinstance(asg, ast.Assign) and isinstance(asg.targets[0], ast.Name) and any(isinstance(x, ast.Name) and x.id == asg.targets[0].id and isinstance(x.ctx, ast.Load) and x.lineno > asg.lineno for x in walk_own(f2.node))
+            kept = kept or (isinstance(asg, ast.Attribute) and asg.attr in ("count", "execute", "get")) or isinstance(asg, ast.Return)
+            rep.check(kept, rule, f2.short, "q = self._where_range(...)", "refined query kept", "the refined query is discarded", f2.loc(cs[0]))
     return {"_where_range": found}
 
 
